@@ -1,6 +1,7 @@
 import Hv.Driver.Core
 import Hv.Hds
 import Hv.Hdd
+import Hv.Concat
 namespace Hv.Driver
 open Hv
 
@@ -81,7 +82,52 @@ def parseStorage (st : St) (align : Nat) (tok : String) : Except Err Hdd.Storage
     | _, _ => .error .other
   | _ => .error .other
 
+/-- the part of one storage for the C10 specification and whether it is inside the hypotheses of
+    `storage_concat_read_correct`: a plain image (its bytes) or a single well-formed expanding image (its `guest`) -/
+def storagePart (st : St) (tok : String) : Except Err (Concat.Part × Bool) :=
+  match tok.splitOn ":" with
+  | [a, b, kind, ids] =>
+    match a.toNat?, b.toNat? with
+    | some s, some e =>
+      if kind = "P" then
+        match st.file? ids with
+        | some f => .ok (⟨e - s, f.byte⟩, decide (s < e) && decide ((e - s) * 512 ≤ f.size))
+        | none => .error .other
+      else
+        match ids.splitOn "+" with
+        | [id] =>
+          if id.startsWith "raw=" then .ok (⟨e - s, fun _ => 0⟩, false) else
+          match st.file? id with
+          | some fh => do
+            let v ← Hds.open fh none
+            .ok (⟨e - s, v.guest (fun _ => 0)⟩, v.wfb && decide (s < e) && decide ((e - s) * 512 ≤ v.size))
+          | none => .error .other
+        | _ => .ok (⟨e - s, fun _ => 0⟩, false)
+    | _, _ => .error .other
+  | _ => .error .other
+
 def hddCmd (st : St) : List String → String
+  | "hdd.concatcheck" :: align :: ns :: rest =>
+    match align.toNat?, ns.toNat? with
+    | some a, some k =>
+      match (rest.take k).mapM (parseStorage st a), (rest.take k).mapM (storagePart st) with
+      | .ok storages, .ok parts =>
+        let v := Hdd.mk storages
+        -- the parts in the order `sorted(key=start)` puts the storages (same stable insertion as `sortByStart`)
+        let triples := (storages.zip parts).foldl (fun acc s =>
+          let (x, y) := acc.span (fun t => t.1.start ≤ s.1.start)
+          x ++ [s] ++ y) ([] : List (Hdd.Storage × Concat.Part × Bool))
+        let sorted := Hdd.sortByStart storages
+        let ps := triples.map (·.2.1)
+        let same := decide (sorted.map (fun s => (s.start, s.end_)) = triples.map (fun t => (t.1.start, t.1.end_)))
+        let inOrder := Concat.tilesb 0 storages (parts.map (·.1))
+        -- hypotheses of storage_concat_read_any_order: the sorted list tiles, every stream inside its own read theorem
+        let wf := !ps.isEmpty && same && Concat.tilesb 0 sorted ps && triples.all (·.2.2) && decide (v.size = Concat.total ps * 512)
+        s!"ok wf={if wf then 1 else 0} n={ps.length} given_in_order={if inOrder then 1 else 0} " ++
+          checkStreamSpec v.read none 512 (Concat.concat ps) v.size a (rest.drop k)
+      | .error e, _ => s!"err {e}"
+      | _, .error e => s!"err {e}"
+    | _, _ => "bad-args"
   | "hdd.stream" :: align :: ns :: rest =>
     match align.toNat?, ns.toNat? with
     | some a, some k =>
